@@ -17,7 +17,7 @@ Lemma c06_degree_ok : (2 <= Gen_C06.defaultBTreeDegree)%Z.
 Proof. vm_compute. discriminate. Qed.
 
 Lemma skel_processRegionHeartbeat_ok : Gen_C06.skel_processRegionHeartbeat =
-  [RLock "v0"; Assign "v2" ":= v0.storage"; Assign "v3" ":= v0.core"; Assign "v4" ":= v0.hotStat"; RUnlock "v0"; Call "PreCheckPutRegion"; Assign "v5" ":= v3.PreCheckPutRegion(v1)"; Assign "v6" ":= v3.PreCheckPutRegion(v1)"; IfE "v6 != nil" [Ret] []; Assign "v7" ":= v1.GetInterval()"; Assign "v8" ":= v7.GetEndTimestamp() - v7.GetStartTimestamp()"; ForE [Assign "v10" ":= core.NewPeerInfo(v9, v1.GetWriteLoads(), v8)"]; IfE "v5 == nil" [Assign "v11" "= true"; Assign "v12" "= true"; Assign "v13" "= true"] [Call "GetRegionEpoch"; Assign "v15" ":= v1.GetRegionEpoch()"; Call "GetRegionEpoch"; Assign "v16" ":= v5.GetRegionEpoch()"; IfE "v15.GetVersion() > v16.GetVersion()" [Assign "v11" "= true"; Assign "v12" "= true"] []; IfE "v15.GetConfVer() > v16.GetConfVer()" [Assign "v11" "= true"; Assign "v12" "= true"] []; IfE "v1.GetLeader().GetId() != v5.GetLeader().GetId()" [IfE "v5.GetLeader().GetId() == 0" [Assign "v13" "= true"] []; Assign "v12" "= true"; Assign "v14" "= true"] []; Call "SortedPeersStatsEqual"; IfE "!core.SortedPeersStatsEqual(v1.GetDownPeers(), v5.GetDownPeers())" [Assign "v12" "= true"; Assign "v14" "= true"] []; Call "SortedPeersEqual"; IfE "!core.SortedPeersEqual(v1.GetPendingPeers(), v5.GetPendingPeers())" [Assign "v12" "= true"; Assign "v14" "= true"] []; IfE "len(v1.GetPeers()) != len(v5.GetPeers())" [Assign "v11" "= true"; Assign "v12" "= true"] []; IfE "v1.GetApproximateSize() != v5.GetApproximateSize() || v1.GetApproximateKeys() != v5.GetApproximateKeys()" [Assign "v12" "= true"] []; IfE "v1.GetRoundBytesWritten() != v5.GetRoundBytesWritten() || v1.GetRoundBytesRead() != v5.GetRoundBytesRead()" [Assign "v12" "= true"; Assign "v14" "= true"] []; IfE "v1.GetReplicationStatus().GetState() != replication_modepb.RegionReplicationState_UNKNOWN && (v1.GetReplicationStatus().GetState() != v5.GetReplicationStatus().GetState() || v1.GetReplicationStatus().GetStateId() != v5.GetReplicationStatus().GetStateId())" [Assign "v12" "= true"] []]; IfE "!v11 && !v12 && !v13" [Ret] []; Lock "v0"; IfE "v12" [Call "PreCheckPutRegion"; Assign "v18" ":= v0.core.PreCheckPutRegion(v1)"; IfE "v18 != nil" [Unlock "v0"; Ret] []; Call "PutRegion"; Assign "v17" "= v0.core.PutRegion(v1)"; ForE [IfE "v0.regionStats != nil" [Call "ClearDefunctRegion"] []; Call "ClearDefunctRegion"]; Assign "v20" ":= make(map[uint64]struct{})"; ForE [Call "updateStoreStatusLocked"]] []; IfE "v13" [Call "collect"] []; IfE "v0.regionStats != nil" [Call "Observe"] []; Assign "v24" ":= v0.changedRegions"; Unlock "v0"; IfE "v2 != nil" [ForE [Call "DeleteRegion"; Assign "v26" ":= v2.DeleteRegion(v25.GetMeta())"]; IfE "v11" [Call "SaveRegion"; Assign "v27" ":= v2.SaveRegion(v1.GetMeta())"] []] []; Ret].
+  [RLock "v0"; Assign "v2" ":= v0.storage"; Assign "v3" ":= v0.core"; Assign "v4" ":= v0.hotStat"; RUnlock "v0"; Call "PreCheckPutRegion"; Assign "v5" ":= v3.PreCheckPutRegion(v1)"; Assign "v6" ":= v3.PreCheckPutRegion(v1)"; IfE "v6 != nil" [Ret] []; Assign "v7" ":= v1.GetInterval()"; Assign "v8" ":= v7.GetEndTimestamp() - v7.GetStartTimestamp()"; ForE [Assign "v10" ":= core.NewPeerInfo(v9, v1.GetWriteLoads(), v8)"]; IfE "v5 == nil" [Assign "v11" "= true"; Assign "v12" "= true"; Assign "v13" "= true"] [Call "GetRegionEpoch"; Assign "v15" ":= v1.GetRegionEpoch()"; Call "GetRegionEpoch"; Assign "v16" ":= v5.GetRegionEpoch()"; IfE "v15.GetVersion() > v16.GetVersion()" [Assign "v11" "= true"; Assign "v12" "= true"] []; IfE "v15.GetConfVer() > v16.GetConfVer()" [Assign "v11" "= true"; Assign "v12" "= true"] []; IfE "v1.GetLeader().GetId() != v5.GetLeader().GetId()" [IfE "v5.GetLeader().GetId() == 0" [Assign "v13" "= true"] []; Assign "v12" "= true"; Assign "v14" "= true"] []; IfE "v1.GetTerm() > v5.GetTerm()" [Assign "v12" "= true"] []; Call "SortedPeersStatsEqual"; IfE "!core.SortedPeersStatsEqual(v1.GetDownPeers(), v5.GetDownPeers())" [Assign "v12" "= true"; Assign "v14" "= true"] []; Call "SortedPeersEqual"; IfE "!core.SortedPeersEqual(v1.GetPendingPeers(), v5.GetPendingPeers())" [Assign "v12" "= true"; Assign "v14" "= true"] []; IfE "len(v1.GetPeers()) != len(v5.GetPeers())" [Assign "v11" "= true"; Assign "v12" "= true"] []; IfE "v1.GetApproximateSize() != v5.GetApproximateSize() || v1.GetApproximateKeys() != v5.GetApproximateKeys()" [Assign "v12" "= true"] []; IfE "v1.GetRoundBytesWritten() != v5.GetRoundBytesWritten() || v1.GetRoundBytesRead() != v5.GetRoundBytesRead()" [Assign "v12" "= true"; Assign "v14" "= true"] []; IfE "v1.GetReplicationStatus().GetState() != replication_modepb.RegionReplicationState_UNKNOWN && (v1.GetReplicationStatus().GetState() != v5.GetReplicationStatus().GetState() || v1.GetReplicationStatus().GetStateId() != v5.GetReplicationStatus().GetStateId())" [Assign "v12" "= true"] []]; IfE "!v11 && !v12 && !v13" [Ret] []; Lock "v0"; IfE "v12" [Call "PreCheckPutRegion"; Assign "v18" ":= v0.core.PreCheckPutRegion(v1)"; IfE "v18 != nil" [Unlock "v0"; Ret] []; Call "PutRegion"; Assign "v17" "= v0.core.PutRegion(v1)"; ForE [IfE "v0.regionStats != nil" [Call "ClearDefunctRegion"] []; Call "ClearDefunctRegion"]; Assign "v20" ":= make(map[uint64]struct{})"; ForE [Call "updateStoreStatusLocked"]] []; IfE "v13" [Call "collect"] []; IfE "v0.regionStats != nil" [Call "Observe"] []; Assign "v24" ":= v0.changedRegions"; Unlock "v0"; IfE "v2 != nil" [ForE [Call "DeleteRegion"; Assign "v26" ":= v2.DeleteRegion(v25.GetMeta())"]; IfE "v11" [Call "SaveRegion"; Assign "v27" ":= v2.SaveRegion(v1.GetMeta())"] []] []; Ret].
 Proof. reflexivity. Qed.
 
 (* server/core/region_tree.go: (regionTree).length, body *)
